@@ -110,6 +110,19 @@ func (g *c07Gen) walk(src *mgen.Type, vecN int, vecSc bool, constOnly bool, maxL
 		case form == 2:
 			idx = append(idx, fmt.Sprintf("i32 %d", rng.Intn(3)))
 			forms = append(forms, "i32")
+		case form == 3 && rng.Intn(3) == 0:
+			// unusual but legal spellings of an index: signed hexadecimal, and decimals beyond int64
+			switch rng.Intn(3) {
+			case 0:
+				idx = append(idx, "i64 s0x0")
+				forms = append(forms, "i64-signed-hex")
+			case 1:
+				idx = append(idx, fmt.Sprintf("i128 %s", []string{"18446744073709551616", "340282366920938463463374607431768211455", "-9223372036854775809"}[rng.Intn(3)]))
+				forms = append(forms, "i128-beyond-int64")
+			default:
+				idx = append(idx, fmt.Sprintf("i64 u0x%X", rng.Intn(3)))
+				forms = append(forms, "i64-unsigned-hex")
+			}
 		case form == 3:
 			idx = append(idx, fmt.Sprintf("i128 %d", rng.Intn(3)))
 			forms = append(forms, "i128")
